@@ -42,6 +42,7 @@ import Cog.Sem.WidenStruct
 import Cog.Gen.Chains
 import Cog.Front.JsonSchemaSoundMain
 import Cog.Front.OpenApiSoundMain
+import Cog.Front.CueSound
 namespace Cog.Sem
 open Cog.IR GoVal
 
@@ -630,6 +631,151 @@ theorem C01_openapi_parser_sound_counterexample : ¬ C01_openapi_parser_sound_fu
 example : FragOA cxComps = false := by decide +kernel
 
 end OA
+
+/-! ### the same for CUE inputs (model: Cog/Front/Cue*.lean; tie: stream `c01-front-cue`)
+
+  `Cue.cueFront pkg fuel top` is the literal model of internal/simplecue/{generator,utils}.go from the VIEW `CV` of the
+  library's `cue.Value` (the answers of the cue API calls the generator makes; `top` = the top-level fields) to the full
+  IR; `cueValidDef x fl fmt pkg top n root d`: the document `d` unifies with the definition `#root` (`x = true`: the
+  strict reading S1–S3, see Cog/Front/CueValid.lean); `FragCue` the decidable fragment: the model's IR has, definition by
+  definition, the shape that the views of the fragment's classes call for (`agree`; the invariant of the stateful walk is
+  checked per schema by this predicate instead of being proved once and for all).  The text → cue.Value step (CUE's own
+  parser and evaluator) is trusted. -/
+
+namespace CUE
+open Cog.Front.Cue
+
+/-- the FULL statement of (b) for CUE inputs; false on the current tree (counterexample below) -/
+def C01_cue_parser_sound_full : Prop :=
+  ∀ (fl : Bool) (fmt : String → Bool) (pkg : String) (top : Top) (root : String) (fuel : Nat) (S : Schemas) (n : Nat) (j : Json),
+    cueFront pkg fuel top = .ok S → wfDeep j = true → cueValidDef false fl fmt pkg top n root j = true →
+    ∃ n', srcDen n' S (.ref pkg root {}) j = true
+
+/-- PARSER SOUNDNESS for CUE on the fragment -/
+theorem C01_cue_parser_sound_partial (fl : Bool) (fmt : String → Bool) (pkg : String) (top : Top) (root : String)
+    (fuel : Nat) (S : Schemas) (hF : FragCue pkg fuel top = true) (hS : cueFront pkg fuel top = .ok S)
+    (n : Nat) (j : Json) (hv : cueValidDef true fl fmt pkg top n root j = true) :
+    ∃ n', srcDen n' S (.ref pkg root {}) j = true :=
+  ⟨n + 1, parser_sound fl fmt pkg top root fuel S hF hS n j hv⟩
+
+theorem C01_cue_parser_sound_fuel_partial (fl : Bool) (fmt : String → Bool) (pkg : String) (top : Top) (root : String)
+    (fuel : Nat) (S : Schemas) (hF : FragCue pkg fuel top = true) (hS : cueFront pkg fuel top = .ok S)
+    (n : Nat) (j : Json) (hv : cueValidDef true fl fmt pkg top n root j = true) :
+    srcDen (n + 1) S (.ref pkg root {}) j = true :=
+  parser_sound fl fmt pkg top root fuel S hF hS n j hv
+
+/-- the same for ANY IR that agrees with the views (instantiated by the tie with the REAL front-end's IR) -/
+theorem C01_cue_parser_sound_agree_partial (fl : Bool) (fmt : String → Bool) (pkg : String) (top : Top) (root : String)
+    (S : Schemas) (hA : agree pkg top S = true) (n : Nat) (j : Json) (hv : cueValidDef true fl fmt pkg top n root j = true) :
+    srcDen (n + 1) S (.ref pkg root {}) j = true :=
+  def_sound pkg top S hA fl fmt n root j hv
+
+/-- (b) + (c) + (d) for CUE inputs on the fragment -/
+theorem C01_cue_end_to_end_partial (fl : Bool) (fmt : String → Bool) (pkg : String) (top : Top) (root : String)
+    (fuel : Nat) (S S' : Schemas) (hF : FragCue pkg fuel top = true) (hS : cueFront pkg fuel top = .ok S)
+    (hP : PlainS S = true) (hrun : runChain goChain S = .ok S')
+    (n : Nat) (j : Json) (hv : cueValidDef true fl fmt pkg top n root j = true) :
+    ∃ j', goRoundTrip (n + 1 + 1) S' pkg root j = .ok j' ∧ Json.eqv j' j = true :=
+  C01_source_roundtrip_struct_partial S S' hP hrun (n + 1) pkg root j
+    (parser_sound fl fmt pkg top root fuel S hF hS n j hv)
+
+def strV : CV :=
+  .mk { ikind := "string", orsplit := [false],
+        andsplit := [{ op := "no", callName := "", arg := .null, refPath := "", concrete := false, scalar := .bottomNone }] } [] [] [] []
+def refV (name : String) : CV := .mk { ikind := "struct", op := "sel", nargs := 2, refPath := "#" ++ name, refName := name, refPkg := "p" } [] [] [] []
+def listV (e : CV) : CV := .mk { ikind := "list", kind := "list", allowsAny := true, dfltEqSelf := true } [] [e] [] []
+def constS (s : String) : CV :=
+  .mk { ikind := "string", kind := "string", concrete := true, scalar := .v (.str s), orsplit := [true], enumOK := true,
+        andsplit := [{ op := "no", callName := "", arg := .null, refPath := "", concrete := true, scalar := .v (.str s) }] } [] [] [] []
+def int32V : CV := .mk { ikind := "int", enumOK := true, orsplit := [false], syn := "int32", csyn := "int32" } [] [] [] []
+def nullV : CV := .mk { ikind := "null", kind := "null", concrete := true, orsplit := [true] } [] [] [] []
+def nullable (b : CV) : CV := .mk { ikind := "other", op := "or", nargs := 2, orsplit := [true, false] } [(false, nullV), (false, b)] [] [] []
+
+/-- `#M: "asc" | "desc"`, `#R: {name: string, count?: null | int32, mode?: #M, next?: #R, tags?: [...string]}` -/
+def exTop : Top := [
+  ("#M", "M", .mk { ikind := "string", op := "or", nargs := 2, enumOK := true, orsplit := [true, true] }
+      [(false, constS "asc"), (false, constS "desc")] [] [] []),
+  ("#R", "R", .mk { ikind := "struct", kind := "struct", concrete := true, evalOp := "no", evalHasFields := true, orsplit := [true] } [] [] []
+      [("name", false, false, strV), ("count", false, true, nullable int32V), ("mode", false, true, refV "M"),
+       ("next", false, true, refV "R"), ("tags", false, true, listV strV)])]
+
+def exDocCue : Json :=
+  .obj [("name", .str "x"), ("count", .null), ("tags", .arr [.str "t"]),
+        ("next", .obj [("name", .str "y"), ("mode", .str "desc"), ("count", .num 12)])]
+
+def alwaysCue : String → Bool := fun _ => true
+
+/-- non-vacuity: hypotheses and conclusions of the CUE theorems on an example, evaluated by the kernel -/
+example : FragCue "p" 8 exTop = true ∧ cueValidDef true true alwaysCue "p" exTop 8 "R" exDocCue = true ∧
+    cueValidDef false false alwaysCue "p" exTop 8 "R" (.obj [("name", .str "x"), ("zz", .num 4)]) = false ∧
+    (match cueFront "p" 8 exTop with
+     | .ok S =>
+       PlainS S && srcDen 9 S (.ref "p" "R" {}) exDocCue &&
+       (match runChain goChain S with
+        | .ok S' => den 10 S' (.ref "p" "R" {}) exDocCue && roundTripsOK S' "p" "R" exDocCue
+        | _ => false)
+     | _ => false) = true := by
+  refine ⟨by decide +kernel, by decide +kernel, by decide +kernel, by decide +kernel⟩
+
+/-! the full statement is false: CUE's `int` is unbounded, the front-end says int64 -/
+
+def cxTop : Top :=
+  [("#R", "R", .mk { ikind := "int", enumOK := true, orsplit := [false], syn := "int", csyn := "int" } [] [] [] [])]
+
+def cxDocCue : Json := .num 36893488147419103232   -- 4 · 2^63
+
+def intAlias (S : Schemas) : Bool :=
+  match Schemas.locateObject S "p" "R" with
+  | some o => (match o.ty with | .scalar "int64" _ _ _ => true | _ => false)
+  | none => false
+
+theorem intAlias_srcDen (S : Schemas) (h : intAlias S = true) (n' : Nat) :
+    srcDen n' S (.ref "p" "R" {}) cxDocCue = false := by
+  cases n' with
+  | zero => rfl
+  | succ k =>
+    unfold intAlias at h
+    simp only [srcDen, xden]
+    cases ho : Schemas.locateObject S "p" "R" with
+    | none => rfl
+    | some o =>
+      simp only [ho] at h ⊢
+      cases hty : o.ty with
+      | scalar kind v cs om =>
+        simp only [hty] at h ⊢
+        have hk : kind = "int64" := by
+          split at h
+          · rename_i heq; injection heq with e1
+          · cases h
+        subst hk
+        have hd : denScalar "int64" cxDocCue = false := by decide +kernel
+        have hn : cxDocCue.isNull = false := rfl
+        rw [hd, hn]
+        simp
+      | ref _ _ _ | cref _ _ _ _ | array _ _ | map _ _ _ | struct _ _ _ _ | enum _ _ | disj _ _ _ | inter _ _ | slot _ _ | bad _ _ =>
+        simp [hty] at h
+
+/-- `#R: int` and the document 2^63: it unifies with CUE's `int`, and is in `srcDen` of the front-end's IR at no fuel —
+    the generator maps `int` to int64 (replayed: pinned case `cuepinint` of stream c01-front-cue).  The schema is INSIDE
+    `FragCue`; the document is valid but not strictly valid (S1). -/
+theorem C01_cue_parser_sound_counterexample : ¬ C01_cue_parser_sound_full := by
+  intro hfull
+  have hshape : (match cueFront "p" 4 cxTop with
+      | .ok S => intAlias S | _ => false) = true := by decide +kernel
+  cases hr : cueFront "p" 4 cxTop with
+  | ok S =>
+    rw [hr] at hshape
+    obtain ⟨n', h⟩ := hfull false alwaysCue "p" cxTop "R" 4 S 2 cxDocCue hr (by decide +kernel) (by decide +kernel)
+    rw [intAlias_srcDen S hshape n'] at h
+    cases h
+  | err e => rw [hr] at hshape; cases hshape
+  | panic e => rw [hr] at hshape; cases hshape
+
+example : FragCue "p" 4 cxTop = true ∧ cueValidDef false false alwaysCue "p" cxTop 2 "R" cxDocCue = true ∧
+    cueValidDef true false alwaysCue "p" cxTop 2 "R" cxDocCue = false := by
+  refine ⟨by decide +kernel, by decide +kernel, by decide +kernel⟩
+
+end CUE
 
 -- ---- END block of the c01-front builder ----
 
